@@ -7,6 +7,6 @@ From CanVerif Require Import Dbc.Ast Dbc.Scanner Dbc.DecFloat Dbc.Parser.
 Extraction Language OCaml.
 Extraction "model.ml"
   parse_bytes parse_bytes_old fuel_for
-  parse_float parse_uint atoi
+  parse_float parse_uint parse_uint_r atoi
   def_pos is_independent_signals_message msgid_valid file
   Z.add Z.mul Z.sub Z.ltb Z.leb Z.eqb Z.of_nat Z.to_nat Z.pow Z.modulo Z.div.
